@@ -16,7 +16,7 @@ import numpy as np
 LEVEL = "exploration"
 EXHAUSTIVE = {"quick": False, "thorough": False}
 RULE = (
-    "registry of 88 call forms (arithmetic, comparisons, astype/img_as/to_trichromatic(return_image=True)/to_monochromatic, "
+    "registry of 92 call forms (arithmetic, comparisons, astype/img_as/to_trichromatic(return_image=True)/to_monochromatic, "
     "subregion/time_slice/time_interval/slice, weight, superpose, stack, append, Resize/resize/equalize_voxel_size/"
     "uniform_refinement, reduce_axis/extrude_along_axis, models, Geometry.integrate/normalize, EMD, wasserstein_distance, "
     "zeros_like/ones_like, bounding_box, random_patches, coordinate conversions, layout helpers, Image(...) built from "
@@ -213,6 +213,12 @@ def build_registry(darsia, rng):
     opts = {"num_iter": 3, "return_info": True}
     add("wasserstein_bregman_weighted", [mass1, mass2, wim, opts], lambda: darsia.wasserstein_distance(mass1, mass2, "bregman", weight=wim, options=opts))
     add("wasserstein_emd", [mass1, mass2], lambda: darsia.wasserstein_distance(mass1, mass2, "cv2.emd"))
+    # non-default back-ends with nested, caller-owned option dictionaries
+    for meth in ("newton", "bregman"):
+        for ls in ("amg", "cg"):
+            o2 = {"num_iter": 3, "linear_solver": ls, "formulation": "pressure", "linear_solver_options": {"rtol": 1e-8, "maxiter": 200},
+                  "amg_options": {"max_levels": 4, "coarse_solver": "pinv"}}
+            add(f"wasserstein_{meth}_{ls}_nested_options", [mass1, mass2, o2], lambda meth=meth, o2=o2: darsia.wasserstein_distance(mass1, mass2, meth, options=o2))
     # ---- standard images, boxes, helpers
     add("zeros_like", [V1], lambda: darsia.zeros_like(V1))
     add("ones_like_voxels", [S1], lambda: darsia.ones_like(S1, mode="voxels", dtype=np.float32))
@@ -376,7 +382,7 @@ def run_shard(spec, R):
 
 MANIFEST = {
     "technique": "snapshot monitor (deep content snapshots of every argument, of all live operands in call chains, and of the global numpy/python RNG state) around a fixed registry of call forms; array-arithmetic oracle",
-    "level_text": "Every call form of a 88-entry registry is executed on several random operand sets of every image kind with all arguments and the global random state snapshotted before and compared after; random chains of up to five calls on a shared operand pool (results fed back, so that metadata containers shared between images become observable) snapshot the whole pool at every step. Arithmetic results are compared bitwise with raw-array arithmetic for the documented scalar types.",
+    "level_text": "Every call form of a 92-entry registry is executed on several random operand sets of every image kind with all arguments and the global random state snapshotted before and compared after; random chains of up to five calls on a shared operand pool (results fed back, so that metadata containers shared between images become observable) snapshot the whole pool at every step. Arithmetic results are compared bitwise with raw-array arithmetic for the documented scalar types.",
     "level_note": "The registry is a fixed list (functions not in it are not observed); Image.append modifies its receiver by documentation, only its argument is judged.",
     "design_ref": "DESIGN.md section 3, C17",
 }
